@@ -13,6 +13,7 @@ import (
 	"encoding/json"
 	"flag"
 	"fmt"
+	"io"
 	"math/rand"
 	"os"
 	"path/filepath"
@@ -154,7 +155,7 @@ var extraText = smf.MetaText("extra track added while the recording runs")
 // the end of track; "record2": tempo, the one marker note sent to the second port, end of track)
 func isExtra(t smf.Track, extra string) bool {
 	switch extra {
-	case "add":
+	case "add", "saved":
 		return len(t) == 2 && bytes.Equal(t[0].Message, extraText)
 	case "record2":
 		return len(t) == 3 && bytes.Equal(t[1].Message, []byte{0x9F, 127, 1})
@@ -225,11 +226,16 @@ func record(rec *RecRec) {
 	}
 	extra := func() {
 		switch rec.Extra {
-		case "add":
+		case "add", "saved":
 			var t smf.Track
 			t.Add(0, extraText)
 			t.Close(0)
 			file.Add(t)
+			if rec.Extra == "saved" { // the SMF is saved while the recording runs (and again at the end)
+				if _, err := file.WriteTo(io.Discard); err != nil {
+					panic(err)
+				}
+			}
 		case "record2":
 			stop2, err = file.RecordFrom(ins2[0], bpm)
 			if err == nil {
@@ -618,9 +624,11 @@ func cmdGen(args []string) {
 	for i := range slow {
 		s := genSession(r, *n+i)
 		s.Prior = []int{}
-		switch i % 6 {
+		switch i % 7 {
 		case 0:
 			s.Via = "smf"
+		case 6:
+			s.Via, s.Extra, s.ExtraAt = "smf", "saved", r.Intn(len(s.Chunks)+1)
 		case 1, 2:
 			s.Via, s.Extra, s.ExtraAt = "smf", "add", r.Intn(len(s.Chunks)+1)
 		case 3, 4:
